@@ -149,7 +149,7 @@ func VerifC03JoinBranching() {
 	d1, d2 := verifNondetIntIn(0, 3), verifNondetIntIn(0, 3)
 	A := mk([]string{"a", "b"}, []int{a, b})
 	B := mk([]string{"b", "c"}, []int{b, c})
-	jv, err := NewJoinExpr(parser.Scanner{}, A, B).Eval(ctx, EmptyScope)
+	jv, err := NewJoinExpr(*parser.NewScanner(""), A, B).Eval(ctx, EmptyScope)
 	verifAssert("join-ok", err == nil)
 	if err != nil {
 		return
@@ -162,7 +162,7 @@ func VerifC03JoinBranching() {
 	}
 	C := mk([]string{"a", "d"}, []int{a, d1})
 	D := mk([]string{"a", second}, []int{a, d2})
-	j1v, err := NewJoinExpr(parser.Scanner{}, j, C).Eval(ctx, EmptyScope)
+	j1v, err := NewJoinExpr(*parser.NewScanner(""), j, C).Eval(ctx, EmptyScope)
 	verifAssert("join1-ok", err == nil)
 	if err != nil {
 		return
@@ -174,7 +174,7 @@ func VerifC03JoinBranching() {
 	fresh := MustNewSet(row1)
 	hasBefore := j1v.(Set).Has(row1)
 	eqBefore := fresh.Equal(j1v)
-	j2v, err := NewJoinExpr(parser.Scanner{}, j, D).Eval(ctx, EmptyScope)
+	j2v, err := NewJoinExpr(*parser.NewScanner(""), j, D).Eval(ctx, EmptyScope)
 	verifAssert("join2-ok", err == nil)
 	if err != nil {
 		return
